@@ -160,6 +160,17 @@ class SEnum:
         return f"<{self.cls.name}.{self.name or self.value}>"
 
 
+class Unspecified:
+    """A value a summary says nothing about (e.g. a field of a decoded PDU that no caller reads). Any operation on it other than
+    passing it along leaves the verifier's reach; it is never a claim that the real value is None."""
+
+    def __repr__(self):
+        return "<unspecified>"
+
+
+UNSPEC = Unspecified()
+
+
 class SUUID:
     def __init__(self, rope: R.Rope):
         self.rope = rope  # bytes_le, 16 bytes
